@@ -617,7 +617,10 @@ def _build_end_to_end(ctx, rid, reg):
     for key, (b, cl) in sorted(reg.items()):
         w.add_class(b)
         mset[key] = (PyFunc(lambda a, k, b=b: w.new(b, a, k), b.name), PyFunc(lambda a, k, key=key: (rec["appliers"].__setitem__(key, (a, k)) or Obj(f"applier_{key}")), cl.name))
-    cfg = Obj("config", {"channels": list(order_c), "samples": list(order_s), "channel_nbins": {k_: c(v_) for k_, v_ in nbins.items()}, "modifiers": list(mods), "modifier_settings": {}})
+    # ONE settings object given to both models of this process (a caller describing two models with the same non-default codes)
+    settings = {"normsys": {"interpcode": "code1"}, "histosys": {"interpcode": "code0"}}
+    settings_before = {k_: dict(v_) for k_, v_ in settings.items()}
+    cfg = Obj("config", {"channels": list(order_c), "samples": list(order_s), "channel_nbins": {k_: c(v_) for k_, v_ in nbins.items()}, "modifiers": list(mods), "modifier_settings": settings})
     site = f"{PDF}::_nominal_and_modifiers_from_spec [interpreted]"
     # HISTORY: another model is built first in the same process -- same channel, sample and modifier NAMES, other bin counts,
     # other data, other placement of the modifiers; nothing of it may show in the model under test
@@ -628,7 +631,7 @@ def _build_end_to_end(ctx, rid, reg):
             {"name": "s1", "data": [at("w_a_s1_0"), at("w_a_s1_1"), at("w_a_s1_2")], "modifiers": [mod("mu", "normfactor")]}]},
     ]}
     warm_mods = sorted({(m["name"], m["type"]) for ch in warm["channels"] for sm in ch["samples"] for m in sm["modifiers"]})
-    warm_cfg = Obj("config", {"channels": ["ca", "cm"], "samples": ["s1", "s2"], "channel_nbins": {"ca": c(3), "cm": c(1)}, "modifiers": list(warm_mods), "modifier_settings": {}})
+    warm_cfg = Obj("config", {"channels": ["ca", "cm"], "samples": ["s1", "s2"], "channel_nbins": {"ca": c(3), "cm": c(1)}, "modifiers": list(warm_mods), "modifier_settings": settings})
     try:
         w.call_func(f, [mset, warm_cfg, warm, Obj("WARM_BATCH")])
     except (FragmentFault, Undecided, KeyError, TypeError, ValueError, IndexError, AttributeError) as e:
@@ -682,10 +685,10 @@ def _build_end_to_end(ctx, rid, reg):
             continue
         a, k = a_k
         mine = [x for x in mods if x[1] == key]
-        ok_args = [tuple(x) for x in (k.get("modifiers") or [])] == mine and k.get("pdfconfig") is cfg and getattr(k.get("batch_size"), "name", None) == "BATCH"
+        ok_args = [tuple(x) for x in (k.get("modifiers") or [])] == mine and k.get("pdfconfig") is cfg and getattr(k.get("batch_size"), "name", None) == "BATCH" and k.get("interpcode") == settings_before.get(key, {}).get("interpcode")
         bd = k.get("builder_data") or {}
         if not ok_args:
-            ctx.violated(rid, f, f"applier arguments [{key}]", "the applier is not constructed from (its own type's modifiers in config order, the configuration, the batch size)", expected=f"modifiers={mine}", found=f"modifiers={k.get('modifiers')} batch_size={k.get('batch_size')}")
+            ctx.violated(rid, f, f"applier arguments [{key}]", "the applier is not constructed from (its own type's modifiers in config order, the configuration, THIS build's batch size and the interpolation code of THIS build's settings -- two models are built in one process from one settings object)", expected=f"modifiers={mine}", found=f"modifiers={k.get('modifiers')} batch_size={k.get('batch_size')}")
         problems = []
         for name, typ in mine:
             per_sample = bd.get(f"{typ}/{name}")
@@ -713,6 +716,10 @@ def _build_end_to_end(ctx, rid, reg):
             ctx.violated(rid, b.methods.get("append") or b, f"builder data [{key}]", "the builder tensors do not follow config.channels x config.samples with a cell masked in exactly where the sample declares the modifier and neutral data elsewhere: " + problems[0], expected="see message", found=f"{len(problems)} field(s) differ")
         elif ok_args:
             ctx.holds(rid, f"{site} {key}", f"{len(mine)} modifier(s) x {len(order_s)} samples x 4 bins: masks and data as declared; applier arguments in their roles")
+    if settings != settings_before:
+        ctx.violated(rid, f, "the caller's modifier_settings object", "building a model rewrites the settings object the caller passed (an entry removed or added): the next model described with the same object is built with other interpolation codes / another batch size than its caller asked for", expected=str(settings_before), found=str(settings))
+    else:
+        ctx.holds(rid, f"{site} modifier settings", "the caller's settings object is unchanged after two builds; each applier got this build's interpolation code and batch size")
     fa = rec.get("finalize_args")
     names = sorted({n for n, _ in mods})
     if fa and len(fa) == 2 and isinstance(fa[1], dict) and sorted(fa[1]) == names:
